@@ -246,18 +246,25 @@ for pid, txt, part in [
             'merging it with an identical copy returns Ok, no events, the same tree and the same tombstones; component idempotence (history union, entry merge, group merge). '
             'Idempotence of a repeated merge of two different replicas is validated by the exhaustive/randomised enumeration on the real code and on the faithful model.',
      ['C13_twice (a second merge of the same source is a no-op) is stated but not proved; proved in full: the self-merge clause (merge_self) and the third clause (C13_result_self_merge: the merge result merged back into itself), component-level idempotence']),
-    ('C14', 'Kernel-checked: every source node without a tombstone in the destination (for it or a group above it) is in the result or tombstoned there (C14_source_nodes_created), no destination node is lost (C14_destination_nodes_kept); component theorems (history union is sorted, duplicate-free and contains both sides; last-writer-wins for entries and groups). '
-            'The flat last-writer-wins reference (MergeSpec) is evaluated on the real result of every enumerated pair.',
-     ['C14_refines (faithful model = flat reference for all replica pairs) is stated but not proved; the reference is evaluated as an oracle on every enumerated pair (a test)']),
+    ('C14', 'Kernel-checked for the whole merge, for every destination and source that are groups with pairwise distinct UUIDs below them: an entry both replicas hold has, wherever the merge leaves it, the content of the '
+            'destination\'s version unless the source\'s modification time is strictly later, then the source\'s (C14_entry_last_writer_wins); the same for a group\'s own name / notes / icon / settings (C14_group_last_writer_wins); '
+            'with different modification times the entry\'s history represents every history item of both versions and the loser\'s uncommitted current version (C14_history_union); every source node without a tombstone in the '
+            'destination (for it or a group above it) is in the result or tombstoned there (C14_source_nodes_created), no destination node is lost (C14_destination_nodes_kept); component theorems (history union is sorted, '
+            'duplicate-free and contains both sides; last-writer-wins for entries and groups). The flat last-writer-wins reference (MergeSpec) is evaluated on the real result of every enumerated pair.',
+     ['placement (an entry lives in the group chosen by whichever side moved it last, unless that lies under a group the destination deleted) is validated by the reference clauses on every enumerated pair, not proved; '
+      'C14_refines (faithful model = flat reference for all replica pairs) is stated but not proved']),
     ('C15', 'Kernel-checked for every destination that is a group with pairwise distinct UUIDs below it and every source: a node the destination has deleted is never re-created '
-            '(C15_never_resurrects), no node of the result is both present and tombstoned (C15_no_node_present_and_tombstoned), the tombstone list only grows (prefix); boundary deletion_time = mtime keeps the node; '
-            'the clauses (incl. deleted iff newer and empty) are evaluated on the real result of every enumerated pair.',
-     ['group_deleted_iff for every tombstone order is validated by enumeration (both orders), not proved']),
+            '(C15_never_resurrects), no node of the result is both present and tombstoned (C15_no_node_present_and_tombstoned), the tombstone list only grows (prefix); an entry the destination holds and the source '
+            'deleted is removed and tombstoned if one of the source\'s tombstones for it is later than its last modification in the destination, and stays untombstoned if none is (C15_entry_deleted_iff_newer, through the '
+            'whole merge); a node neither replica has a tombstone for stays (C15_untombstoned_node_stays); boundary deletion_time = mtime keeps the node; '
+            'the clauses (incl. deleted iff newer and empty, for groups) are evaluated on the real result of every enumerated pair.',
+     ['for groups, "deleted iff the deletion is newer and the group is empty once its deleted children are gone" is validated by enumeration in both tombstone orders, not proved (proved for entries: C15_entry_deleted_iff_newer); '
+      'an entry the source both still holds and has a tombstone for (not producible by the edit operations) is outside that theorem']),
     ('C16', 'Kernel-checked: C16_merge_terminates — the whole merge never exhausts the fuel of its only unbounded loop, for every destination that is a group with pairwise distinct UUIDs below it and every source (the group passes preserve that invariant: updates in place, moves, creations under UUIDs find_node_location did not find), the result is again such a tree and holds no node from nowhere; mergeDeletions_terminates — on a destination tree that is a group with pairwise distinct UUIDs, for every source, the work queue of merge_deletions '
             '(the only unbounded loop of merge; a group is re-queued while a child group is still queued) never exhausts the fuel (queue length + 1)^2 + 1: some queue element is always '
             'resolvable (a re-queued tombstone has a strictly deeper tombstoned node in the queue), rotations only permute the queue, removals keep UUIDs distinct. merge_group is structurally '
-            'recursive over the source tree and the pass loop is bounded by the number of groups. Soundness clauses (unique UUIDs, nothing lost) are evaluated on the real result of every enumerated pair under a watchdog.',
-     ['that merge returns Ok on every pair of related replicas (no FindGroupError and the like) is validated by enumeration, not proved; proved for every source: termination of the whole merge (C16_merge_terminates), the result keeps pairwise distinct UUIDs (C16_merge_keeps_uuids_distinct) and holds no node from nowhere (C16_no_node_from_nowhere)']),
+            'recursive over the source tree and the pass loop is bounded by the number of groups. C16_merge_never_panics — merge reaches none of its unwrap() sites (kind mismatch in merge_group, a history item without modification time) when the replicas agree on which UUIDs are entries and which are groups and every entry version is timed: every intermediate tree is again such a tree and find_node_location is sound on it. Soundness clauses (unique UUIDs, nothing lost) are evaluated on the real result of every enumerated pair under a watchdog.',
+     ['that merge returns Ok (rather than an error value such as FindGroupError) on every pair of related replicas is validated by enumeration, not proved; proved: no panic under kind agreement (C16_merge_never_panics), and for every source: termination of the whole merge (C16_merge_terminates), the result keeps pairwise distinct UUIDs (C16_merge_keeps_uuids_distinct) and holds no node from nowhere (C16_no_node_from_nowhere)']),
 ]:
     PROPS[pid] = {'ops': ['merge'], 'judge': make_merge_judge(pid), 'rule': MERGE_RULE, 'assumptions': MERGE_ASSUME,
                   'level_text': txt, 'partial': part, 'timeout': 3000, 'exhaustive': {'quick': False, 'thorough': False}}
